@@ -297,6 +297,16 @@ def perturb(rng: Rng, sim, registry, vocab, steps: int) -> List[Any]:
             done.append(req)
         except Exception:
             pass
+        if rng.chance(1, 5):  # power events on NETWORK devices (routers, firewalls, switches): their routes must be power-gated too
+            try:
+                devs = [n for n in sim.network.nodes.values() if type(n).__name__ not in ("Computer", "Server", "Printer")]
+                if devs:
+                    n = rng.choice(devs)
+                    q = ["network", "node", n.config.hostname, "startup" if n.operating_state.name == "OFF" else "shutdown"]
+                    sim.apply_request(q)
+                    done.append(q)
+            except Exception:
+                pass
         if rng.chance(1, 6):  # churn: delete an existing file and create one of the same name again (and sometimes restore)
             try:
                 cands = [(n, fo, fi) for n in sim.network.nodes.values() for fo in n.file_system.folders.values() for fi in fo.files.values()]
